@@ -390,6 +390,7 @@ var (
 	oidP7SM3        = asn1.ObjectIdentifier{1, 2, 156, 10197, 1, 401, 1}
 	oidP7SM3Arc     = asn1.ObjectIdentifier{1, 2, 156, 10197, 1, 401}
 	oidP7SM3withSM2 = asn1.ObjectIdentifier{1, 2, 156, 10197, 1, 501}
+	oidP7SM2Sign    = asn1.ObjectIdentifier{1, 2, 156, 10197, 1, 301, 1} // "SM2-1 digital signature": GM/T 0010 pairs it with SM3
 )
 
 func p7mkAttr(oid asn1.ObjectIdentifier, v interface{}) p7attr {
@@ -419,6 +420,29 @@ func p7attrSet(attrs []p7attr) []byte {
 // 3 attributes altered after signing; 4 content altered after signing; 5 signature bytes altered; 6 unknown digest
 // algorithm; 7 signer certificate missing; 8 no signer; 9 signed attributes lack the message digest
 func sm2SignedData(content []byte, attrs, detached bool, digestOID asn1.ObjectIdentifier, tamper int) []byte {
+	return sm2SignedDataAlg(content, attrs, detached, digestOID, oidP7SM3withSM2, tamper)
+}
+
+// p7kindOIDs: the (digest, signature) algorithm identifiers of a signer kind sm2[g][n]<a|b>: a/b = the two SM3
+// digest OIDs, g = signature algorithm 1.2.156.10197.1.301.1 (GM/T 0010) instead of SM3-with-SM2 (...1.501),
+// n = no signed attributes
+func p7kindOIDs(kind string) (digestOID, sigOID asn1.ObjectIdentifier, attrs, ok bool) {
+	switch kind {
+	case "sm2a", "sm2b", "sm2na", "sm2nb", "sm2ga", "sm2gb", "sm2gna", "sm2gnb":
+	default:
+		return nil, nil, false, false
+	}
+	digestOID, sigOID = oidP7SM3, oidP7SM3withSM2
+	if strings.HasSuffix(kind, "b") {
+		digestOID = oidP7SM3Arc
+	}
+	if strings.Contains(kind, "g") {
+		sigOID = oidP7SM2Sign
+	}
+	return digestOID, sigOID, !strings.Contains(kind, "n"), true
+}
+
+func sm2SignedDataAlg(content []byte, attrs, detached bool, digestOID, sigOID asn1.ObjectIdentifier, tamper int) []byte {
 	cert, key := sm2Party(0)
 	signKey := key
 	if tamper == 2 {
@@ -462,7 +486,7 @@ func sm2SignedData(content []byte, attrs, detached bool, digestOID asn1.ObjectId
 		Certs: asn1.RawValue{Class: 2, Tag: 0, IsCompound: true, Bytes: cert.Raw},
 		Signers: []p7signer{{Version: 1, IAS: p7ias{asn1.RawValue{FullBytes: cert.RawIssuer}, cert.SerialNumber},
 			DigestAlg: pkix.AlgorithmIdentifier{Algorithm: digestOID}, Attrs: as,
-			SigAlg: pkix.AlgorithmIdentifier{Algorithm: oidP7SM3withSM2}, Sig: sig}}}
+			SigAlg: pkix.AlgorithmIdentifier{Algorithm: sigOID}, Sig: sig}}}
 	if tamper == 7 { // the signer's certificate is not in the container (another party's is)
 		other, _ := sm2Party(2)
 		sd.Certs.Bytes = other.Raw
@@ -484,7 +508,7 @@ func sm2SignedData(content []byte, attrs, detached bool, digestOID asn1.ObjectId
 	return outer
 }
 
-// p7sign <rsa|sm2a|sm2b|sm2na|sm2nb> <detached 0|1> <content>
+// p7sign <rsa|sm2[g][n]<a|b>> <detached 0|1> <content>
 // rsa: NewSignedData/AddSigner/Finish (always signed attributes); sm2*: harness-built SM2 signer, a/b = the two
 // SM3 digest OIDs, n = no signed attributes
 func evalP7sign(args []string) string {
@@ -515,13 +539,9 @@ func evalP7sign(args []string) string {
 		if err != nil {
 			return "ORACLE-FAIL:finish"
 		}
-	case "sm2a", "sm2b", "sm2na", "sm2nb":
-		oid := oidP7SM3
-		if strings.HasSuffix(args[0], "b") {
-			oid = oidP7SM3Arc
-		}
-		attrs := !strings.Contains(args[0], "n")
-		der = sm2SignedData(content, attrs, detached, oid, 0)
+	case "sm2a", "sm2b", "sm2na", "sm2nb", "sm2ga", "sm2gb", "sm2gna", "sm2gnb":
+		oid, sigOID, attrs, _ := p7kindOIDs(args[0])
+		der = sm2SignedDataAlg(content, attrs, detached, oid, sigOID, 0)
 		for t := 1; t <= 5; t++ {
 			if t == 1 && !attrs {
 				continue
@@ -529,7 +549,7 @@ func evalP7sign(args []string) string {
 			if detached && (t == 4 || (t == 3 && !attrs)) {
 				continue // detached content is supplied by the verifier; covered below
 			}
-			tampered = append(tampered, sm2SignedData(content, attrs, detached, oid, t))
+			tampered = append(tampered, sm2SignedDataAlg(content, attrs, detached, oid, sigOID, t))
 		}
 	default:
 		return "bad-op"
@@ -580,7 +600,7 @@ func evalP7sign(args []string) string {
 	return "ok"
 }
 
-// p7v <sm2a|sm2b|sm2na|sm2nb> <detached 0|1> <tamper 0..9> <content> : Verify's verdict on one harness-built
+// p7v <sm2[g][n]<a|b>> <detached 0|1> <tamper 0..9> <content> (kinds: p7kindOIDs) : Verify's verdict on one harness-built
 // SM2 signed-data object, compared with the verdict of the Lean decision model
 func evalP7v(args []string) string {
 	if len(args) != 4 {
@@ -591,13 +611,12 @@ func evalP7v(args []string) string {
 	if !ok || err != nil || t < 0 || t > 9 {
 		return "bad-op"
 	}
-	oid := oidP7SM3
-	if strings.HasSuffix(args[0], "b") {
-		oid = oidP7SM3Arc
+	oid, sigOID, attrs, kindOK := p7kindOIDs(args[0])
+	if !kindOK {
+		return "bad-op"
 	}
-	attrs := !strings.Contains(args[0], "n")
 	detached := args[1] == "1"
-	der := sm2SignedData(content, attrs, detached, oid, t)
+	der := sm2SignedDataAlg(content, attrs, detached, oid, sigOID, t)
 	p7, perr := x509.ParsePKCS7(der)
 	if perr != nil {
 		return "parse-error"
@@ -675,8 +694,11 @@ func evalP12(args []string) string {
 			return fmt.Sprintf("ORACLE-FAIL:ToPEM-wrong-password-no-error:%d-blocks", len(blocks))
 		}
 	}
-	// (with the right password ToPEM reports "x509: unknown elliptic curve" for an SM2 key: it converts keys with the
-	// standard library's marshaller - an error, not wrong data; DecodeAll is the entry point that returns SM2 keys)
+	// with the right password ToPEM gives the same key and certificate (before the repair of convertBag it reported
+	// "x509: unknown elliptic curve" for every SM2 key: it converted keys with the standard library's marshaller)
+	if why := c17ToPEMSame(pfx, string(pwd), key.D, [][]byte{cert.Raw}); why != "" {
+		return "ORACLE-FAIL:ToPEM-with-right-password:" + why
+	}
 	step := len(pfx)/120 + 1
 	for pos := 0; pos < len(pfx); pos += step {
 		for _, m := range []byte{1, 0x80} {
@@ -811,7 +833,10 @@ func genC17(r *rng, tier string, emit func(string)) {
 	for i := 0; i < n+10; i++ {
 		emit(fmt.Sprintf("p7sign %s %d %s", []string{"rsa", "sm2a", "sm2b", "sm2na", "sm2nb"}[i%5], (i/5)%2, hx(r.bytes(r.pick([]int{0, 1, 20, 200})))))
 	}
-	for _, kind := range []string{"sm2a", "sm2b", "sm2na", "sm2nb"} {
+	for i, kind := range []string{"sm2ga", "sm2gb", "sm2gna", "sm2gnb", "sm2gb", "sm2ga", "sm2gnb", "sm2gna"} {
+		emit(fmt.Sprintf("p7sign %s %d %s", kind, i/4, hx(r.bytes(r.pick([]int{0, 1, 20, 200})))))
+	}
+	for _, kind := range []string{"sm2a", "sm2b", "sm2na", "sm2nb", "sm2ga", "sm2gb", "sm2gna", "sm2gnb"} {
 		for det := 0; det < 2; det++ {
 			for t := 0; t <= 9; t++ {
 				emit(fmt.Sprintf("p7v %s %d %d %s", kind, det, t, hx(r.bytes(r.pick([]int{0, 1, 31, 32, 33, 500})))))
@@ -829,8 +854,9 @@ func genC17(r *rng, tier string, emit func(string)) {
 		}
 		emit(fmt.Sprintf("p12 %s %s %d", hx([]byte(p)), hx([]byte(w)), i%8))
 	}
-	c17kGen(r, tier, emit)   // PKCS#12 KDF / MAC / PBE / MAC decision (Model.PKCS12)
-	c17FixGen(r, tier, emit) // records inside larger buffers (Model.SliceMem), key types in PKCS#12 bundles (Model.PKCS8)
+	c17kGen(r, tier, emit)    // PKCS#12 KDF / MAC / PBE / MAC decision (Model.PKCS12)
+	c17FixGen(r, tier, emit)  // records inside larger buffers (Model.SliceMem), key types in PKCS#12 bundles (Model.PKCS8)
+	c17Fix2Gen(r, tier, emit) // bundles with CA certificates, recipient key types, segmented / undecodable SignedData (c17fix2.go)
 }
 
 // ---- a small definite-length TLV tree, to re-encode an envelope in the BER "streaming" form -----------------
